@@ -458,3 +458,33 @@ def eval_at(expr, valuation):
     if not v.is_const():
         raise Unsupported('free names in %s' % expr)
     return v.c
+
+
+def top_level_terms(src):
+    """Split an expression into its top-level signed terms: [(sign, ast node)], using + and - only."""
+    node, src = parse_expr(src)
+    out = []
+
+    def walk(n, sign):
+        if isinstance(n, ast.BinOp) and isinstance(n.op, (ast.Add, ast.Sub)):
+            walk(n.left, sign)
+            walk(n.right, sign if isinstance(n.op, ast.Add) else -sign)
+        elif isinstance(n, ast.UnaryOp) and isinstance(n.op, (ast.USub, ast.UAdd)):
+            walk(n.operand, -sign if isinstance(n.op, ast.USub) else sign)
+        else:
+            out.append((sign, n))
+    walk(node.body, 1)
+    return out, src
+
+
+def term_values(src, valuation):
+    """[(set of names in the term, exact signed value of the term)] for every top-level term."""
+    terms, src = top_level_terms(src)
+    out = []
+    for sign, n in terms:
+        names = set(x.id for x in ast.walk(n) if isinstance(x, ast.Name))
+        v = _ev(n, src, valuation)
+        if not v.is_const():
+            raise Unsupported('free names')
+        out.append((names, sign * v.c))
+    return out
